@@ -605,5 +605,125 @@ theorem mapIncomingFlat_perm (legs : List Leg) (qconj : Int) (sort bunch : Bool)
     rw [ex]; exact hlt
   · rw [List.length_map, gridC_length, indLen_prod legs qconj sort bunch hs]
 
+/-! ### the outgoing leg passes `test_sanity` -/
+
+theorem inRange_zip_lt {α} (f : α → Nat) (L : List α) (t : List Nat) (h : InRange t (L.map f)) :
+    ∀ lq ∈ L.zip t, lq.2 < f lq.1 := by
+  induction L generalizing t with
+  | nil => intro lq hlq; simp at hlq
+  | cons a L ih =>
+    cases t with
+    | nil => exact h.elim
+    | cons q t =>
+      intro lq hlq
+      rcases List.mem_cons.1 hlq with rfl | hlq
+      · exact h.1
+      · exact ih t h.2 lq hlq
+
+theorem fuse_valid (legs : List Leg) (qconj : Int) (hw : ∀ l ∈ legs, l.WF)
+    (hm : ∀ l ∈ legs, l.mods = gMods legs) (hmods : ∀ m ∈ gMods legs, 1 ≤ m) (t : List Nat)
+    (ht : InRange t (gSubq legs)) : checkValid (gMods legs) (fuse (gMods legs) legs qconj t) = true := by
+  unfold fuse
+  apply checkValid_makeValid _ hmods
+  unfold fuseRaw
+  apply csum_length
+  intro c hc
+  obtain ⟨lq, hlq, rfl⟩ := List.mem_map.1 hc
+  have hlt := inRange_zip_lt Leg.blockNumber legs t ht lq hlq
+  have hl : lq.1 ∈ legs := (List.of_mem_zip hlq).1
+  simp only [cscale, List.length_map]
+  rw [(hw _ hl).charge_len _ (getD_mem _ _ _ hlt), Leg.qnumber, hm _ hl]
+
+theorem gMods_ge (legs : List Leg) (hw : ∀ l ∈ legs, l.WF) : ∀ m ∈ gMods legs, 1 ≤ m := by
+  cases legs with
+  | nil => intro m hm; simp [gMods, Leg.fromTrivial, Leg.mk'] at hm
+  | cons l legs => exact (hw l (by simp)).mods
+
+theorem gPre_valid (legs : List Leg) (qconj : Int) (sort : Bool) (hw : ∀ l ∈ legs, l.WF)
+    (hm : ∀ l ∈ legs, l.mods = gMods legs) :
+    ∀ c ∈ (gPre legs qconj sort).charges, checkValid (gMods legs) c = true := by
+  intro c hc
+  have hc0 : c ∈ gCharges0 legs qconj := by
+    apply take?_subset _ _ _ _ c hc
+    intro q hq
+    have := (gPermQ_perm legs qconj sort).mem_iff.1 hq
+    rw [gCharges0_length]; simpa using this
+  rw [gCharges0_eq] at hc0
+  obtain ⟨t, ht, rfl⟩ := List.mem_map.1 hc0
+  exact fuse_valid legs qconj hw hm (gMods_ge legs hw) t ((mem_gridC _ _).1 ht)
+
+theorem gPre_WF (legs : List Leg) (qconj : Int) (sort : Bool) (hw : ∀ l ∈ legs, l.WF)
+    (hm : ∀ l ∈ legs, l.mods = gMods legs) (hq : qconj = 1 ∨ qconj = -1) : (gPre legs qconj sort).WF :=
+  ⟨gPre_shape legs qconj sort, gPre_valid legs qconj sort hw hm, gMods_ge legs hw, hq⟩
+
+theorem gPre_sorted (legs : List Leg) (qconj : Int) (sort : Bool) :
+    (gPre legs qconj sort).sorted = true → (gPre legs qconj sort).isSorted = true := by
+  intro hs
+  rw [Leg.isSorted_iff]
+  by_cases h0 : (gMods legs).length = 0
+  · exact Or.inl h0
+  · right
+    have hsort : sort = true := by
+      have : (sort || (gMods legs).length == 0) = true := hs
+      simpa [h0] using this
+    have hd : gDoSort legs sort = true := by
+      unfold gDoSort; rw [hsort]; simp; omega
+    show (take? (gCharges0 legs qconj) (gPermQ legs qconj sort) []).Pairwise _
+    have : gPermQ legs qconj sort = lexsort (gCharges0 legs qconj) := by
+      unfold gPermQ; rw [if_pos hd]
+    rw [this]
+    exact take?_lexsort_sorted _
+
+/-- the outgoing leg of a pipe of well-formed legs (same `chinfo`) satisfies the class invariant
+and its `sorted`/`bunched` flags are truthful -/
+theorem leg_WF_sane (legs : List Leg) (qconj : Int) (sort bunch : Bool) (hw : ∀ l ∈ legs, l.WF)
+    (hm : ∀ l ∈ legs, l.mods = gMods legs) (hq : qconj = 1 ∨ qconj = -1) :
+    (init legs qconj sort bunch).leg.WF ∧ (init legs qconj sort bunch).leg.sane = true := by
+  have key : (init legs qconj sort bunch).leg.WF ∧ (init legs qconj sort bunch).leg.FlagsOK := by
+    by_cases hs : (gSubq legs).all (· == 1) = true
+    · have hWF : (init legs qconj sort bunch).leg.WF := by
+        refine ⟨leg_shape legs qconj sort bunch, ?_, ?_, ?_⟩
+        · rw [init_single legs qconj sort bunch hs]
+          intro c hc
+          simp only [List.mem_singleton] at hc
+          subst hc
+          apply fuse_valid legs qconj hw hm (gMods_ge legs hw)
+          rw [zeros_eq]
+          have hones := single_ones legs hs
+          generalize gSubq legs = shape at hones
+          induction shape with
+          | nil => trivial
+          | cons n ns ih =>
+            exact ⟨by rw [hones n (by simp)]; exact Nat.zero_lt_one, ih (fun m hm => hones m (by simp [hm]))⟩
+        · rw [(init_mods_qconj legs qconj sort bunch).1]; exact gMods_ge legs hw
+        · rw [(init_mods_qconj legs qconj sort bunch).2]; exact hq
+      refine ⟨hWF, ?_⟩
+      have h1 : (init legs qconj sort bunch).leg.charges.length ≤ 1 := by
+        rw [init_single legs qconj sort bunch hs]; simp
+      have := Leg.flags_of_le_one _ hWF.cl0 h1
+      exact ⟨fun _ => this.1, fun _ => this.2⟩
+    · have hs' : (gSubq legs).all (· == 1) = false := by simpa using hs
+      have hpre := gPre_WF legs qconj sort hw hm hq
+      cases bunch
+      · rw [leg_nobunch legs qconj sort hs']
+        exact ⟨hpre, gPre_sorted legs qconj sort, fun hb => by simp [gPre] at hb⟩
+      · rw [leg_bunch legs qconj sort hs']
+        exact ⟨Leg.bunchCore_WF hpre, Leg.bunchCore_flags hpre (gPre_sorted legs qconj sort)⟩
+  exact ⟨key.1, key.1.sane_iff.2 key.2⟩
+
+/-- in terms of physical charges (`make_valid(qconj * charge)`): outgoing = sum of incoming -/
+theorem fuseFlat_phys (mods : List Nat) (legs : List Leg) (qconj : Int) (xs : List Nat)
+    (hq : qconj = 1 ∨ qconj = -1) :
+    makeValid mods (cscale qconj (fuseFlat mods legs qconj xs)) =
+      makeValid mods (csum mods.length
+        ((legs.zip xs).map (fun lx => cscale lx.1.qconj (lx.1.toQflat.getD lx.2 [])))) := by
+  unfold fuseFlat
+  rw [makeValid_scale, cscale_csum, List.map_map]
+  congr 3
+  funext lx
+  simp only [Function.comp, cscale_cscale]
+  congr 1
+  rcases hq with h | h <;> rw [h] <;> omega
+
 end Pipe
 end TenpyModel.Core
